@@ -99,6 +99,8 @@ def build_retry(r):
             kw["wait"] = wait_fixed(_dtm.timedelta(milliseconds=w[1]))
         elif kind == "chain":
             kw["wait"] = wait_chain(*[wait_fixed(d) for d in w[1]])
+        elif kind == "chain_incr":
+            kw["wait"] = wait_chain(*([wait_fixed(d) for d in w[1]] + [wait_incrementing(start=w[2], increment=w[3], max=w[4])]))
         elif kind == "exp":
             kw["wait"] = wait_exponential(multiplier=w[1], exp_base=w[2], max=w[3])
         elif kind == "incr":
@@ -316,6 +318,9 @@ def cfg_for_tla(prog: dict) -> dict:
                 wait = {"k": "fixed", "a": int(w[1]), "b": 0, "c": 0, "ds": []}
             elif w[0] == "chain":
                 wait = {"k": "chain", "a": 0, "b": 0, "c": 0, "ds": [int(d * 1000) for d in w[1]]}
+            elif w[0] == "chain_incr":
+                wait = {"k": "chain_incr", "a": int(w[2] * 1000), "b": int(w[3] * 1000), "c": int(w[4] * 1000),
+                        "ds": [int(d * 1000) for d in w[1]]}
             elif w[0] == "exp":
                 wait = {"k": "exp", "a": int(w[1] * 1000), "b": int(w[2]), "c": int(w[3] * 1000), "ds": []}
             else:
